@@ -357,7 +357,10 @@ func (g *gen) acase() acaseT {
 	r := g.r
 	k := acaseT{Wire: "r", Opts: g.opts(), Accept: g.accept(), Len: r.Range(2, 5), Mask: r.Intn(1 << 12)}
 	k.Pos = r.Intn(k.Len)
-	switch r.Intn(6) {
+	switch r.Intn(7) {
+	case 6:
+		// c.MustBind(&req): Bind's own error (binding or validation) goes to Fail
+		k.Call = callT{Kind: "mustbind", MB: r.Range(1, len(mbQueries)-1)}
 	case 0, 1, 2:
 		e := g.err(0)
 		k.Call = callT{Kind: "fail", Err: &e}
@@ -524,6 +527,12 @@ func fixedCases() []caseT {
 	}
 	// the pooled context comes back from a NoRoute handler that failed (aborted without a chain)
 	add(acaseT{Wire: "r", Len: 2, Pos: 1, Mask: 1, AfterNoRoute: true, Call: callT{Kind: "helper", Helper: 4, Err: boom}})
+	// MustBind: a query value that does not convert; a validation failure (details: field errors)
+	for _, f := range []fmtT{rfc, japi, simple} {
+		f := f
+		add(acaseT{Wire: "r", Opts: []optT{{F: &f}}, Len: 3, Pos: 1, Mask: 3, Call: callT{Kind: "mustbind", MB: 1}})
+		add(acaseT{Wire: "s", Opts: []optT{{F: &f}}, Len: 2, Pos: 1, Mask: 1, Call: callT{Kind: "mustbind", MB: 4}})
+	}
 	// an earlier negotiation in the request, then a second Accept field line, then the failure
 	add(acaseT{Wire: "r", Opts: neg, Accept: sp("text/html"), AcceptAdd: "application/vnd.api+json", Len: 3, Pos: 2, Mask: 3, Call: callT{Kind: "helper", Helper: 0, Err: boom}})
 	add(acaseT{Wire: "s", Opts: neg, Accept: sp("application/json;q=0.1"), AcceptAdd: "application/vnd.api+json", Len: 2, Pos: 1, Mask: 1, Call: callT{Kind: "fail", Err: boom}})
